@@ -99,7 +99,11 @@ type Param struct {
 
 // TimeCounterFunc returns the TOTP counter value based on the Unix time and period.
 // It performs integer division of time by the period to produce a moving counter window.
+// A zero period means the 30 second default, as everywhere else in this package.
 var TimeCounterFunc = func(t time.Time, period uint) uint64 {
+	if period == 0 {
+		period = 30
+	}
 	return uint64(t.Unix()) / uint64(period)
 }
 
